@@ -212,6 +212,18 @@ def judge(events, outs):
                     V.append(_v("C02", sg, ev, {"abort_at_entry": b["k"], "where": b["where"], "of": out["entries"]}))
             if out.get("data_changed"):
                 V.append(_v("C02", f"C02/{fl}/predict-aborted/alters-data:{'+'.join(out['data_changed'])}", ev))
+            if out.get("later_differs"):
+                b = out["later_differs"][0]
+                V.append(_v("C02", f"C02/{fl}/predict-aborted/later-prediction-differs", ev,
+                            {"abort_at_entry": b["k"], "where": b["where"], "of": out["entries"], "got": b["got"]}))
+
+        elif kind == "FIT_ABORT_SWEEP":
+            if cls != "done":
+                continue
+            fl = flabel(out["fam"], out["profile"])
+            for b in out.get("data_altered") or []:
+                V.append(_v("C02", f"C02/{fl}/fit-aborted/alters-data:{'+'.join(b['attrs'])}", ev,
+                            {"abort_at_entry": b["k"], "where": b["where"], "of": out["entries"]}))
 
         elif kind == "PREDICT_PAIR":
             if cls != "done" or not out.get("covers"):
@@ -222,6 +234,9 @@ def judge(events, outs):
             how = ("data-" + "+".join(out["via_data"])) if out.get("via_data") else "model"
             if out.get("reads") == "offset":
                 how += "@offset-reads"
+            if out.get("after_altered_same") is False:
+                V.append(_v("C05", f"C05/{fl}/pair/{alt}/earlier-usage-leaks:{_cols(out.get('after_altered_diff') or [])}", ev,
+                            out.get("history")))
             if ca != cb:
                 V.append(_v("C05", f"C05/{fl}/pair/{alt}/outcome-differs:{ca}|{cb}", ev, out.get("history")))
             elif ca == "returned":
@@ -253,6 +268,8 @@ def judge(events, outs):
                 continue
             if out.get("restore_same") is False:
                 V.append(_v("C02", f"C02/{fl}/store/alters-model", ev))
+                if out.get("form") == "dict":
+                    V.append(_v("C01", f"C01/{fl}/store/document-aliases-model", ev))
             if out.get("same_as_fit") is False:
                 V.append(_v("C03", f"C03/{fl}/store/doc-differs-from-fit:{'+'.join(out.get('fit_diff_paths', []))}", ev))
             if out.get("same_as_origin") is False:
